@@ -176,7 +176,7 @@ class Check(object):
         print('[%s %6.1fs]' % (self.pid, time.time() - self.t0), *a, flush=True)
 
     # ---------------- proof side ----------------
-    def build_proofs(self, theorems, timeout=3000):
+    def build_proofs(self, theorems, timeout=3000, ties=()):
         """Compile Properties/<pid>.vo (and all it depends on), scan the sources of that closure for
         forbidden constructs, and run Print Assumptions on every property theorem."""
         tgt = 'theories/Properties/%s.vo' % self.pid
@@ -184,7 +184,9 @@ class Check(object):
             rc, out = sh(['coq_makefile', '-f', '_CoqProject', '-o', 'Makefile'], 120, cwd=COQ)
             if rc != 0:
                 raise Broken('coq_makefile failed: ' + out)
-        rc, out = sh(['make', '-j8', tgt], timeout, cwd=COQ)
+        tie_tgts = ['theories/%s.vo' % t.replace('.', '/') for t in ['Tie.%sTie' % self.pid] + list(ties)
+                    if os.path.exists(os.path.join(COQ, 'theories', t.replace('.', '/') + '.v'))]
+        rc, out = sh(['make', '-j8', tgt] + tie_tgts, timeout, cwd=COQ)
         self.cov['checker_cmd'] = 'make -C /verif/coq %s  &&  coqc Print Assumptions on %d theorems' % (
             tgt, len(theorems))
         closure = self.closure(os.path.join(COQ, 'theories', 'Properties', self.pid + '.v'))
